@@ -375,6 +375,10 @@ def get_bs_cached(n, sigma=1.0, reg=0.0, correction=True, basis_dir='', dr=1.0,
             # Try to extend the largest available
             try:
                 oldM, oldMc = np.load(full_path(largest_file))
+                # (must be what the file name says and fit into the new basis)
+                l_n = int(largest_file.split('_')[-2])
+                if oldM.shape != (l_n, _nbf(l_n, sigma)) or l_n > n:
+                    raise ValueError('wrong basis shape')
                 if verbose:
                     print('(extending {})'.format(largest_file))
             except:
